@@ -16,6 +16,7 @@ heap_failures_Inv heap_failures_then_fresh async_window_not_coherent frame_all_h
 frame_violation_witness frame_iff frame_after_return apiCall_all_complete apiCall_ofName
 declared_frame_safe inPlace_calls never_returned_or_definition api_history_frame
 api_history_frame_kind'''.split()
+PINS = ['C07_body_get_control_matrix', 'C07_body_cache_control_matrix', 'C07_body_get_filter_function', 'C07_body_cache_filter_function', 'C07_body_get_pulse_correlation_filter_function', 'C07_body_get_filter_function_derivative', 'C07_body_get_total_phases', 'C07_body_cache_total_phases', 'C07_body_diagonalize', 'C07_body_copy', 'C07_body_deepcopy', 'C07_body_get_pulse_correlation_control_matrix']
 GEN_SITES = ['cache:cleanup', 'cache:method_bodies']
 COMPONENTS = ['effects', 'abort_trace']
 RULES = ['histories of public calls (constructors, getters, cachers, clean-up, copies, concatenate, '
